@@ -30,6 +30,13 @@ pub fn k_for(cfg: &Cfg) -> f64 {
             Degree::Quintic => 512.0,
             _ => 16.0,
         },
+        Kind::XI | Kind::XO | Kind::XX => {
+            // the rounding error of an f32 FFT grows with log2 of its length: 64 units up to
+            // 8192-point blocks (measured worst 30 at 4096), in proportion beyond
+            let (fi, fo) = crate::kf::fft_sizes(cfg);
+            let n = (2 * fi.max(fo)).max(2) as f64;
+            64.0 * (n.log2() / 14.0).max(1.0)
+        }
         _ => 64.0,
     }
 }
